@@ -26,8 +26,8 @@ Definition part_line (id : string) (p : part) : string :=
 
 Definition input_line (id : string) (inv : invocation) : string :=
   match inv_mode inv with
-  | Attr => line id ["INPUT"; "A"; flat (r_dx_args (inv_args inv)); flat (r_item (inv_item inv))]
-  | Derive => line id ["INPUT"; "D"; ""; flat (r_item (inv_item inv))]
+  | Attr => line id ["INPUT"; "A"; text (r_dx_args (inv_args inv)); text (r_item (inv_item inv))]
+  | Derive => line id ["INPUT"; "D"; ""; text (r_item (inv_item inv))]
   end.
 
 Definition run_expand (id : string) (inv : invocation) : list string :=
